@@ -71,7 +71,18 @@ func main() {
 				switch kind {
 				case "refresh":
 					c.Eval(1)
-					if refreshSession(c, k, r, 4300*time.Millisecond) == "no-refresh" {
+					res := refreshSession(c, k, r, 4300*time.Millisecond)
+					if strings.HasPrefix(res, "gap|") {
+						c.Add("refresh_sessions_with_a_gap_rerun_for_confirmation", 1)
+						c.Sample(4, map[string]any{"kind": "gap-not-confirmed-or-confirmed", "first_session": res[6:min(len(res), 1500)]})
+						// confirmation: a fresh session of the same kind observed twice as long, in which the template must have gone
+						// without a copy for FOUR intervals (a template that dropped out of the refresh never comes back; a
+						// delayed tick or a datagram the peer's socket buffer shed does not add up to that)
+						if res2 := refreshSession(c, k, c.Rand(k, 2), 8600*time.Millisecond, int(res[4]-'0'), 4000); strings.HasPrefix(res2, "gap|") {
+							c.Violation(k, "template-not-refreshed", res2[6:], map[string]any{"first_session": res[6:]})
+						}
+					}
+					if res == "no-refresh" {
 						// confirm on a fresh session observed twice as long
 						if refreshSession(c, k, c.Rand(k, 1), 8600*time.Millisecond) == "no-refresh" {
 							c.Violation(k, "no-refresh", "no template was retransmitted during 4 and then 8 refresh intervals although the application's own sends progressed", nil)
@@ -148,7 +159,12 @@ func dataSet(t tmpl, counter uint32, nrec int, r *rand.Rand) (entities.Set, []by
 	return set, body
 }
 
-func refreshSession(c *hx.Ctx, k int, r *rand.Rand, dur time.Duration) string {
+func refreshSession(c *hx.Ctx, k int, r *rand.Rand, dur time.Duration, opts ...int) string {
+	// opts: [0] 1 = a storm session whatever the PRNG says; [1] the gap (ms) that counts as "not refreshed" (default 2500)
+	gapLimit := 2500 * time.Millisecond
+	if len(opts) > 1 {
+		gapLimit = time.Duration(opts[1]) * time.Millisecond
+	}
 	v6 := r.IntN(2) == 0
 	domain := r.Uint32()
 	s, err := lib.NewExpSession("udp", v6, domain, 1, 0)
@@ -192,7 +208,7 @@ func refreshSession(c *hx.Ctx, k int, r *rand.Rand, dur time.Duration) string {
 	// storm: many templates (a refresh round then takes milliseconds) and a short burst of NEW templates announced
 	// while a round is being transmitted, then silence until the next round: "every template sent so far is
 	// retransmitted each refresh interval", whenever it was announced
-	storm := r.IntN(8) == 1
+	storm := r.IntN(3) == 1 || (len(opts) > 0 && opts[0] == 1)
 	if storm {
 		nT = 150 + r.IntN(100)
 		dur += time.Second
@@ -221,7 +237,7 @@ func refreshSession(c *hx.Ctx, k int, r *rand.Rand, dur time.Duration) string {
 			late++
 			nextTrickle = time.Since(start) + time.Duration(300+r.IntN(400))*time.Millisecond
 		}
-		if storm && time.Since(start) > tickAt-20*time.Millisecond && tickAt < dur-1500*time.Millisecond {
+		if storm && time.Since(start) > tickAt-20*time.Millisecond && stormBursts == 0 && tickAt < dur-1500*time.Millisecond {
 			// wait (sending nothing) for the first datagram of the round, then announce a few templates at once
 			base := s.UDP.Count()
 			for time.Since(start) < tickAt+60*time.Millisecond {
@@ -238,7 +254,7 @@ func refreshSession(c *hx.Ctx, k int, r *rand.Rand, dur time.Duration) string {
 				runtime.Gosched()
 			}
 			tickAt += time.Second
-			// nothing is announced until the next round; data goes on below
+			// nothing more is announced in this session; data goes on below
 		}
 		if !trickle && !storm && addMid && !added && time.Since(start) > dur/3 {
 			if !sendT(mkT()) {
@@ -283,6 +299,7 @@ func refreshSession(c *hx.Ctx, k int, r *rand.Rand, dur time.Duration) string {
 		tmplBody[t.tid] = refipfix.EncodeTemplateRecord(t.tid, gen.Fields(t.elems))
 		minRec[t.tid] = refipfix.MinRecordLen(gen.Widths(t.elems))
 	}
+	var tmplTrace []string
 	refPos := map[uint16][]int{} // capture positions of the refresh copies of each template
 	annIdx := map[uint16]int{}   // capture position of the application's own announcement
 	for i, dg := range dgs {
@@ -310,8 +327,10 @@ func refreshSession(c *hx.Ctx, k int, r *rand.Rand, dur time.Duration) string {
 			if ai < len(sends) && sends[ai].kind == "T" && sends[ai].tid == tid {
 				ai++
 				annIdx[tid] = i
+				tmplTrace = append(tmplTrace, fmt.Sprintf("#%d announcement of %d at %d ms", i, tid, dg.At.Sub(start).Milliseconds()))
 			} else {
 				refPos[tid] = append(refPos[tid], i)
+				tmplTrace = append(tmplTrace, fmt.Sprintf("#%d refresh copy of %d at %d ms", i, tid, dg.At.Sub(start).Milliseconds()))
 				refresh[tid]++
 				if inRound[tid] {
 					inRound = map[uint16]bool{}
@@ -353,27 +372,27 @@ func refreshSession(c *hx.Ctx, k int, r *rand.Rand, dur time.Duration) string {
 		c.Inconclusive(fmt.Sprintf("session %d: %d application datagrams did not arrive", k, len(sends)-ai))
 		return ""
 	}
-	// Rounds cannot be told apart exactly (the library walks a map: the order differs from round to round), but this
-	// can: if X has refresh copies at p1 < p2 < p3 (three consecutive rounds), the whole middle round lies strictly
-	// between p1 and p3, and a template T whose announcement was on the wire before p1 was in the table before that
-	// middle round's snapshot was taken: T must have a refresh copy in (p1, p3)
-	for x, ps := range refPos {
-		for j := 0; j+2 < len(ps); j++ {
-			p1, p3 := ps[j], ps[j+2]
-			for tid, at := range annIdx {
-				if at >= p1 {
-					continue
+	// "every template sent so far is retransmitted each refresh interval" (1 s here), whenever it was announced and
+	// whatever the exporter's schedule (rounds, per-template deadlines): between a template's announcement, its
+	// refresh copies and the end of the capture no gap may exceed 2.5 intervals (4 intervals in the confirming session). Times are the peer's arrival times;
+	// a gap is reported only if a second, fresh session of the same kind shows one too (the caller does that).
+	if len(dgs) > 0 {
+		endAt := dgs[len(dgs)-1].At
+		for tid, at := range annIdx {
+			last := dgs[at].At
+			for _, q := range append(append([]int{}, refPos[tid]...), -1) {
+				now := endAt
+				if q >= 0 {
+					now = dgs[q].At
 				}
-				found := false
-				for _, q := range refPos[tid] {
-					if q > p1 && q < p3 {
-						found = true
-						break
+				if gap := now.Sub(last); gap > gapLimit {
+					st := 0
+					if storm {
+						st = 1
 					}
+					return fmt.Sprintf("gap|%d|template %d (announced %d ms into the session, %d refresh copies in all) was not retransmitted for %d ms (from %d ms to %d ms into the session) with a refresh interval of 1 s; %d templates announced, application datagrams kept arriving; trace: %v", st, tid, dgs[at].At.Sub(start).Milliseconds(), len(refPos[tid]), gap.Milliseconds(), last.Sub(start).Milliseconds(), now.Sub(start).Milliseconds(), len(annIdx), tmplTrace[max(0, len(tmplTrace)-40):])
 				}
-				if !found {
-					return fail("template-not-refreshed", fmt.Sprintf("template %d was announced as datagram %d; template %d was then retransmitted as datagrams %d, %d and %d (three refresh rounds), and there is no copy of template %d between the first and the third: a whole refresh round left it out (%d templates announced in this session)", tid, at, x, p1, ps[j+1], p3, tid, len(annIdx)), nil)
-				}
+				last = now
 			}
 		}
 	}
